@@ -2,7 +2,8 @@
 
 Scenario line (space separated):
   <store> <nkeys> <ops>
-    store   mem | ufs | aufs | diskd | rock     (one squid per store type: a SMALL cache so that fillers force eviction/replacement)
+    store   mem | shm | ufs | aufs | diskd | rock   (one squid per store type: a SMALL cache so that fillers force eviction/replacement;
+            shm = two SMP workers sharing one memory cache)
     ops     comma separated, started in this order:
       U<k>.<n>.<seed>.<hv>.<m>.<j>  the origin gets a new version of key k (n body bytes, header variant hv) and a client reloads it
                                     (Cache-Control: no-cache).  m = how the origin sends it:
@@ -23,10 +24,13 @@ import os, re, threading, time, socket
 from e2e import rig
 from harness.c17 import body, CTYPES
 
-STORES = ("mem", "ufs", "aufs", "diskd", "rock")
+STORES = ("mem", "shm", "ufs", "aufs", "diskd", "rock")
+SMP_DIR = "/usr/local/squid/var/run/squid"      # DEFAULT_STATEDIR of the build: where SMP kids create their IPC sockets
 SMALL = "cache_mem 1 MB\nmaximum_object_size_in_memory 24 KB\nmaximum_object_size 600 KB\ncache_swap_low 70\ncache_swap_high 80\n"
 CONF = {
     "mem": "cache_mem 2 MB\nmaximum_object_size_in_memory 600 KB\nmaximum_object_size 600 KB\n",
+    # two workers sharing one memory cache (MemStore over shared memory pages): hits of one worker on what the other stored
+    "shm": "workers 2\nmemory_cache_shared on\ncache_mem 2 MB\nmaximum_object_size_in_memory 600 KB\nmaximum_object_size 600 KB\n",
     "ufs": "cache_dir ufs {dir}/cache 3 2 4\n" + SMALL,
     "aufs": "cache_dir aufs {dir}/cache 3 2 4\n" + SMALL,
     "diskd": "cache_dir diskd {dir}/cache 3 2 4\ndiskd_program {repo}/src/DiskIO/DiskDaemon/diskd\n" + SMALL,
@@ -274,15 +278,24 @@ class Harness:
         self.crashes = 0
         self.n = 0
         self.lock = threading.Lock()
+        self.unavailable = {}
         for s in stores:
-            sq = rig.Squid(stage, conf=CONF[s] + COMMON)
+            if s == "shm":
+                try:
+                    os.makedirs(SMP_DIR, exist_ok=True)
+                    os.chmod(SMP_DIR, 0o777)
+                except OSError as e:
+                    self.unavailable[s] = "cannot create %s: %s" % (SMP_DIR, e)
+                    continue
+            sq = rig.Squid(stage, conf=CONF[s] + COMMON, workers=2 if s == "shm" else None)
             if "cache_dir" in CONF[s]:
                 r = sq.init_dirs()
                 if r.returncode != 0:
                     raise RuntimeError("squid -z failed for %s: %s" % (s, (r.stdout + r.stderr)[-800:]))
             self.squids[s] = sq
         for s in stores:
-            self._start(self.squids[s])
+            if s in self.squids:
+                self._start(self.squids[s])
 
     def _start(self, s):
         for attempt in range(3):
@@ -297,6 +310,10 @@ class Harness:
                 if attempt == 2:
                     raise
         t0 = time.time()
+        while s.workers and s.cache_log().count("Accepting HTTP Socket connections") < s.workers:
+            if not s.alive() or time.time() - t0 > 60 * rig.VERIF_SLOW:
+                raise RuntimeError("SMP workers did not start: " + s.cache_log()[-800:])
+            time.sleep(0.05)
         while "Completed Validation Procedure" not in s.cache_log() and "cache_dir" in open(s.conf_path).read():
             if not s.alive() or time.time() - t0 > 120 * rig.VERIF_SLOW:
                 raise RuntimeError("squid index rebuild did not finish: " + s.cache_log()[-800:])
@@ -304,6 +321,8 @@ class Harness:
 
     def one(self, line):
         sc = parse_line(line)
+        if sc is not None and sc["store"] in self.unavailable:
+            return "skip:" + re.sub(r"\s+", "_", self.unavailable[sc["store"]])
         if sc is None or sc["store"] not in self.squids:
             return "bad-op"
         with self.lock:
@@ -316,7 +335,18 @@ class Harness:
             return "abort:squid-died " + (re.sub(r"\s+", "_", probs[0])[:120] if probs else "")
         return out
 
-    def run(self, lines):
+    def run(self, lines, attempt=0):
+        out = self.run_once(lines)
+        # flake guard: scenarios with an operation that could not be observed at all (timeout, socket error) are run again,
+        # twice at most; wrong bytes are never retried
+        again = [i for i, o in enumerate(out) if re.search(r"=none|=timeout|io-error", o)]
+        if again and attempt < 2:
+            redo = self.run([lines[i] for i in again], attempt + 1)
+            for i, o in zip(again, redo):
+                out[i] = o
+        return out
+
+    def run_once(self, lines):
         from concurrent.futures import ThreadPoolExecutor
         with ThreadPoolExecutor(max_workers=6) as ex:
             out = list(ex.map(rig.guarded(self.one, list(self.squids.values())), lines))
